@@ -5,9 +5,9 @@
 (* model the real `parse()` produced for it, one solution of that model and    *)
 (* what the real `populateResults()` read back from it.                        *)
 (*                                                                             *)
-(* Part 1  semantics:  Valid(T, P), Utility(T, P), Best(T)                     *)
+(* Part 1  semantics:  Valid(T, X, P), Utility(T, X, P), Best(T, X)            *)
 (* Part 2  ModelSat(M, x), ObjVal(M, x)                                        *)
-(* Part 3  record / summary checkers and the batch state machine               *)
+(* Part 3  record / summary checkers, attribution, the batch state machine     *)
 (*                                                                             *)
 (* A tree T is [now, H, q, root, nodes]: q[p] is the quantity of partition p,  *)
 (* time runs over 0..H-1 in unit steps (occupancy start <= t < end), nodes is  *)
@@ -16,22 +16,40 @@
 (* (Choose / WindowedChoose / MalleableChoose) to                              *)
 (*   [on, start, end, alloc]   alloc = set of <<partition, time, amount>>.     *)
 (*                                                                             *)
+(* Every operator takes a context X = [v, cp, purge].  X.v = {} is THE         *)
+(* specification (what the property demands).  A non-empty X.v switches on     *)
+(* "pinned-model" variants: for each known defect of the library one variant   *)
+(* of the semantics under which the library's behaviour is correct.  They are  *)
+(* used only to ATTRIBUTE a failure (it must fail under X.v = {} first): a     *)
+(* failure that disappears under the smallest set V of variants is reported    *)
+(* with the causes V, one that no variant explains is reported as unexplained. *)
+(* cp / purge say whether the critical-path / capacity-purge pass ran (some    *)
+(* defects only exist with a pass).                                            *)
+(*                                                                             *)
 (* Conventions the property statement leaves open and the pinned code fixes    *)
-(* are named here (DESIGN 7):                                                  *)
-(*  - ConvTrivialMinBonus: a Min none of whose children depends on the         *)
-(*    placement (Allocations only) is worth that constant;                     *)
-(*  - Min and LessThan couple their placement-dependent children               *)
-(*    all-or-nothing (the lowering puts an equality on the indicators), so a   *)
-(*    child shared with another parent is bound by it as well;                 *)
-(*  - the utility of a shared sub-expression counts once per parent;           *)
-(*  - an Allocation holds its resources unconditionally and has utility 0;     *)
-(*  - a Choose / MalleableChoose that starts before `now` is never placed;     *)
-(*  - a MalleableChoose occupies whole slots: it ends at the end of its last   *)
-(*    occupied slot (this is what ordering and capacity are judged on).        *)
+(* (DESIGN 7): ConvTrivialMinBonus (a Min none of whose children depends on    *)
+(* the placement is worth that constant); Min and LessThan couple their        *)
+(* placement-dependent children all-or-nothing (equality on the indicators),   *)
+(* which also binds a child shared with another parent; the utility of a       *)
+(* shared sub-expression counts once per parent; an Allocation holds its       *)
+(* resources unconditionally and has utility 0; a Choose / MalleableChoose     *)
+(* that starts before `now` is never placed; a MalleableChoose occupies whole  *)
+(* slots and ends at the end of its last occupied slot.                        *)
 EXTENDS Integers, Sequences, FiniteSets, TLC, Json
 
 CONSTANTS BatchFile,            \* path of the JSON batch (Part 3)
           ConvTrivialMinBonus   \* utility of a Min none of whose children depends on the placement
+
+\* the fixed vocabulary of causes (known defects of the pinned library)
+F1 == "F1_lessthan_constant_times_untied"
+F2 == "F2_malleable_end_is_last_slot_start"
+F3 == "F3_lessthan_row_unconditional"
+F4 == "F4_critical_path_uint_underflow"
+F6 == "F6_critical_path_leaves_past_only_max"
+F7 == "F7_shared_subexpression_dead_without_passes"
+F8 == "F8_critical_path_treats_malleable_as_rigid"
+SemCauses == {F1, F2, F3, F7, F8}      \* have a variant semantics; F4 / F6 are crashes (trigger patterns)
+Spec0 == [v |-> {}, cp |-> FALSE, purge |-> FALSE]
 
 -----------------------------------------------------------------------------
 (* generic helpers *)
@@ -62,6 +80,11 @@ Leaves(T) == {i \in NodeIdx(T) : T.nodes[i].k \in LeafKinds}
 Parts(T) == 1..Len(T.q)
 Times(T) == 0..(T.H - 1)
 Kids(T, i) == SeqToSet(T.nodes[i].ch)
+OfKind(T, k) == {i \in NodeIdx(T) : T.nodes[i].k = k}
+AllocNodes(T) == OfKind(T, "Allocation")
+
+RECURSIVE Desc(_, _)            \* the node and everything below it
+Desc(T, i) == {i} \cup UNION {Desc(T, c) : c \in Kids(T, i)}
 
 Unplaced == [on |-> FALSE, start |-> 0, end |-> 0, alloc |-> {}]
 
@@ -75,6 +98,123 @@ WStarts(T, n) == {s \in n.start..n.end : s % n.gran = 0}
 \* slots of a MalleableChoose
 MSlots(n) == {s \in n.start..(n.end - 1) : (s - n.start) % n.gran = 0}
 
+\* --- static facts about a tree ---------------------------------------------
+\* start / end of a node when they do not depend on the placement, else -1
+RECURSIVE CStart(_, _)
+CStart(T, i) ==
+    LET n == T.nodes[i] IN
+    CASE n.k \in {"Choose", "Allocation"} -> n.start
+      [] n.k = "Scale" -> CStart(T, n.ch[1])
+      [] n.k = "LessThan" -> CStart(T, n.ch[1])
+      [] OTHER -> -1
+RECURSIVE CEnd(_, _)
+CEnd(T, i) ==
+    LET n == T.nodes[i] IN
+    CASE n.k \in {"Choose", "Allocation"} -> n.start + n.dur
+      [] n.k = "Scale" -> CEnd(T, n.ch[1])
+      [] n.k = "LessThan" -> CEnd(T, n.ch[2])
+      [] OTHER -> -1
+\* a LessThan whose ordering is decided by constants
+ConstLt(T, i) == CEnd(T, T.nodes[i].ch[1]) >= 0 /\ CStart(T, T.nodes[i].ch[2]) >= 0
+
+RECURSIVE Cond0(_, _)           \* does the satisfaction of node i depend on the placement?
+Cond0(T, i) ==
+    LET n == T.nodes[i] IN
+    CASE n.k \in LeafKinds -> TRUE
+      [] n.k = "Allocation" -> FALSE
+      [] n.k = "Max" -> TRUE
+      [] OTHER -> \E c \in Kids(T, i) : Cond0(T, c)
+
+HasW(T, i) == \E j \in Desc(T, i) : T.nodes[j].k = "WindowedChoose"
+HasM(T, i) == \E j \in Desc(T, i) : T.nodes[j].k = "MalleableChoose"
+
+\* earliest end / latest start any option of a node can have (what an ordering can rely on)
+RECURSIVE EarliestEnd(_, _)
+EarliestEnd(T, i) ==
+    LET n == T.nodes[i] IN
+    CASE n.k \in {"Choose", "Allocation"} -> n.start + n.dur
+      [] n.k = "WindowedChoose" -> n.start + n.dur
+      [] n.k = "MalleableChoose" -> n.start + n.gran
+      [] n.k = "Max" -> MinOf({EarliestEnd(T, c) : c \in Kids(T, i)})
+      [] n.k = "LessThan" -> EarliestEnd(T, n.ch[2])
+      [] n.k = "Scale" -> EarliestEnd(T, n.ch[1])
+      [] OTHER -> MaxOf({EarliestEnd(T, c) : c \in Kids(T, i)})
+RECURSIVE LatestStart(_, _)
+LatestStart(T, i) ==
+    LET n == T.nodes[i] IN
+    CASE n.k \in {"Choose", "Allocation"} -> n.start
+      [] n.k = "WindowedChoose" -> n.end
+      [] n.k = "MalleableChoose" -> n.end - n.gran
+      [] n.k = "Max" -> MaxOf({LatestStart(T, c) : c \in Kids(T, i)})
+      [] n.k = "LessThan" -> LatestStart(T, n.ch[1])
+      [] n.k = "Scale" -> LatestStart(T, n.ch[1])
+      [] OTHER -> MinOf({LatestStart(T, c) : c \in Kids(T, i)})
+
+\* --- trigger patterns of the known defects -----------------------------------
+\* F1: LessThan over constant times with a placement-dependent child
+F1Node(T, i) == T.nodes[i].k = "LessThan" /\ ConstLt(T, i)
+                /\ \E c \in Kids(T, i) : Cond0(T, c)
+\* F7 (needs the critical-path pass): an ordering over a WindowedChoose that no
+\* pair of options can meet is dropped by the pass together with its coupling
+F7Node(T, i) == /\ T.nodes[i].k = "LessThan" /\ HasW(T, i)
+                /\ EarliestEnd(T, T.nodes[i].ch[1]) > LatestStart(T, T.nodes[i].ch[2])
+\* F4 (crash, critical-path pass): a WindowedChoose below an ordering
+F4Tree(T) == \E i \in OfKind(T, "LessThan") : HasW(T, i)
+\* F6 (crash, critical-path pass): a Max below an ordering that has an option in the past
+F6Tree(T) == \E i \in OfKind(T, "LessThan") : \E m \in Desc(T, i) :
+                 /\ T.nodes[m].k = "Max"
+                 /\ \E c \in Kids(T, m) : T.nodes[c].k = "Choose" /\ T.nodes[c].start < T.now
+
+Applicable(T, X) ==
+    {c \in SemCauses :
+        CASE c = F1 -> \E i \in NodeIdx(T) : F1Node(T, i)
+          [] c = F2 -> OfKind(T, "MalleableChoose") # {}
+          [] c = F3 -> \E i \in OfKind(T, "LessThan") : ~ConstLt(T, i)
+          [] c = F7 -> X.cp /\ \E i \in NodeIdx(T) : F7Node(T, i)
+          [] c = F8 -> X.cp /\ \E i \in OfKind(T, "LessThan") : HasM(T, i)
+          [] OTHER -> FALSE}
+
+\* --- nodes that can never provide utility (the library parses them to NO_UTILITY) ---
+RECURSIVE NoU(_, _, _)
+NoU(T, X, i) ==
+    LET n == T.nodes[i] IN
+    CASE n.k \in {"Choose", "MalleableChoose"} -> n.start < T.now
+      [] n.k = "WindowedChoose" -> T.now > n.end
+      [] n.k = "Allocation" -> FALSE
+      [] n.k = "Max" -> \A c \in Kids(T, i) : NoU(T, X, c)
+      [] n.k = "Min" -> \E c \in Kids(T, i) : NoU(T, X, c)
+      [] n.k = "Scale" -> NoU(T, X, n.ch[1])
+      [] n.k = "LessThan" ->
+            \/ NoU(T, X, n.ch[1]) \/ NoU(T, X, n.ch[2])
+            \/ (ConstLt(T, i) /\ CEnd(T, n.ch[1]) > CStart(T, n.ch[2]))   \* wrong order, statically
+            \/ (F7 \in X.v /\ X.cp /\ F7Node(T, i))                        \* pinned: dropped by the pass
+      [] OTHER -> FALSE
+
+\* pinned F1: such a LessThan is "trivially satisfied" and does not tie its children
+Untied(T, X, i) == F1 \in X.v /\ F1Node(T, i)
+
+RECURSIVE Cond(_, _, _)   \* does the satisfaction of node i depend on the placement?
+Cond(T, X, i) ==
+    LET n == T.nodes[i] IN
+    CASE n.k \in LeafKinds -> TRUE
+      [] n.k = "Allocation" -> FALSE
+      [] n.k = "Max" -> TRUE
+      [] n.k = "LessThan" -> IF Untied(T, X, i) THEN FALSE ELSE \E c \in Kids(T, i) : Cond(T, X, c)
+      [] OTHER -> \E c \in Kids(T, i) : Cond(T, X, c)
+
+RECURSIVE Sat(_, _, _, _)
+Sat(T, X, P, i) ==
+    LET n == T.nodes[i] IN
+    IF NoU(T, X, i) THEN FALSE
+    ELSE CASE n.k \in LeafKinds -> P[i].on
+           [] n.k = "Allocation" -> TRUE
+           [] n.k = "Max" -> \E c \in Kids(T, i) : Sat(T, X, P, c)
+           [] n.k = "Min" -> \A c \in Kids(T, i) : Sat(T, X, P, c)
+           [] n.k = "LessThan" -> IF Untied(T, X, i) THEN TRUE
+                                  ELSE Sat(T, X, P, n.ch[1]) /\ Sat(T, X, P, n.ch[2])
+           [] n.k = "Scale" -> Sat(T, X, P, n.ch[1])
+           [] OTHER -> TRUE
+
 \* --- exactness of one leaf (C20.choose_exact / C20.unsat_nothing) ---
 AllocShapeOK(T, n, al, times) ==
     /\ al # {}
@@ -82,8 +222,23 @@ AllocShapeOK(T, n, al, times) ==
                      /\ e[2] \in times /\ e[3] >= 1
     /\ \A e, f \in al : (e[1] = f[1] /\ e[2] = f[2]) => e = f
 
+\* the span a placed leaf really occupies.  MalleableChoose: first slot .. end of last
+\* slot; pinned F2: the library's end variable is the START of the last slot; pinned F8
+\* (critical-path pass): the pass reasons about it as the rigid block [start, end)
+LeafStart(T, X, P, i) ==
+    LET n == T.nodes[i] IN
+    IF n.k = "MalleableChoose" /\ P[i].alloc # {}
+    THEN IF F8 \in X.v /\ X.cp THEN n.start ELSE MinOf({e[2] : e \in P[i].alloc})
+    ELSE P[i].start
+LeafEnd(T, X, P, i) ==
+    LET n == T.nodes[i] IN
+    IF n.k = "MalleableChoose" /\ P[i].alloc # {}
+    THEN IF F8 \in X.v /\ X.cp THEN n.end
+         ELSE MaxOf({e[2] : e \in P[i].alloc}) + (IF F2 \in X.v THEN 0 ELSE n.gran)
+    ELSE P[i].end
+
 \* which requirements a leaf's placement misses (empty = exact)
-LeafBad(T, P, i) ==
+LeafBad(T, X, P, i) ==
     LET n == T.nodes[i]  pl == P[i]
         If(c, tag) == IF c THEN {tag} ELSE {}
         times == {e[2] : e \in pl.alloc}
@@ -105,16 +260,8 @@ LeafBad(T, P, i) ==
                 \cup If(~AllocShapeOK(T, n, pl.alloc, MSlots(n)), "alloc")
                 \cup If(SumSet3(pl.alloc) # n.slots, "amount")
                 \cup If(times # {} /\ pl.start # MinOf(times), "start")
-                \cup If(times # {} /\ pl.end # MaxOf(times) + n.gran, "end")
-LeafOK(T, P, i) == LeafBad(T, P, i) = {}
-
-\* the span a placed leaf really occupies (a MalleableChoose: first slot .. end of last slot)
-LeafStart(T, P, i) ==
-    IF T.nodes[i].k = "MalleableChoose" /\ P[i].alloc # {}
-    THEN MinOf({e[2] : e \in P[i].alloc}) ELSE P[i].start
-LeafEnd(T, P, i) ==
-    IF T.nodes[i].k = "MalleableChoose" /\ P[i].alloc # {}
-    THEN MaxOf({e[2] : e \in P[i].alloc}) + T.nodes[i].gran ELSE P[i].end
+                \cup If(times # {} /\ pl.end # MaxOf(times) + (IF F2 \in X.v THEN 0 ELSE n.gran), "end")
+LeafOK(T, X, P, i) == LeafBad(T, X, P, i) = {}
 
 \* --- capacity (C20.capacity) ---
 LeafUse(T, P, i, p, t) ==
@@ -125,7 +272,6 @@ LeafUse(T, P, i, p, t) ==
          ELSE IF pl.start <= t /\ t < pl.end
               THEN SumSet3({e \in pl.alloc : e[1] = p}) ELSE 0
 
-AllocNodes(T) == {i \in NodeIdx(T) : T.nodes[i].k = "Allocation"}
 AllocUse(T, i, p, t) ==
     LET n == T.nodes[i] IN
     IF n.start <= t /\ t < n.start + n.dur
@@ -138,101 +284,123 @@ Use(T, P, p, t) ==
     + SumFun([i \in AllocNodes(T) |-> AllocUse(T, i, p, t)], AllocNodes(T))
 
 UseTable(T, P) == [c \in Parts(T) \X Times(T) |-> Use(T, P, c[1], c[2])]
-CapViolIn(T, ut) == {c \in DOMAIN ut : ut[c] > T.q[c[1]]}
-CapViol(T, P) == CapViolIn(T, UseTable(T, P))
-CapOK(T, P) == \A p \in Parts(T), t \in Times(T) : Use(T, P, p, t) <= T.q[p]
+
+\* pinned F2 with the capacity-purge pass: the pass trusts an ordering to keep its two
+\* sides apart and drops their common capacity rows; with the short MalleableChoose end
+\* the last slot of the first side and the second side may then share a cell
+PurgedCell(T, X, P, c) ==
+    /\ F2 \in X.v /\ X.purge
+    /\ \E l \in OfKind(T, "LessThan") :
+         \E x \in Desc(T, T.nodes[l].ch[1]) \cap OfKind(T, "MalleableChoose") :
+           \E y \in Desc(T, T.nodes[l].ch[2]) \cap Leaves(T) :
+              LeafUse(T, P, x, c[1], c[2]) > 0 /\ LeafUse(T, P, y, c[1], c[2]) > 0
+
+CapViolIn(T, X, P, ut) == {c \in DOMAIN ut : ut[c] > T.q[c[1]] /\ ~PurgedCell(T, X, P, c)}
+CapOK(T, X, P) == \A p \in Parts(T), t \in Times(T) :
+                      Use(T, P, p, t) <= T.q[p] \/ PurgedCell(T, X, P, <<p, t>>)
 
 \* --- structure ---
-RECURSIVE Cond(_, _)   \* does the satisfaction of node i depend on the placement?
-Cond(T, i) ==
-    LET n == T.nodes[i] IN
-    CASE n.k \in LeafKinds -> TRUE
-      [] n.k = "Allocation" -> FALSE
-      [] n.k = "Max" -> TRUE
-      [] OTHER -> \E c \in Kids(T, i) : Cond(T, c)
-
-\* span of an Allocation-only sub-expression (independent of the placement)
-RECURSIVE FixStart(_, _)
-FixStart(T, i) ==
-    LET n == T.nodes[i] IN
-    IF n.k = "Allocation" THEN n.start ELSE MinOf({FixStart(T, c) : c \in Kids(T, i)})
-RECURSIVE FixEnd(_, _)
-FixEnd(T, i) ==
-    LET n == T.nodes[i] IN
-    IF n.k = "Allocation" THEN n.start + n.dur ELSE MaxOf({FixEnd(T, c) : c \in Kids(T, i)})
-
-RECURSIVE Sat(_, _, _)
-Sat(T, P, i) ==
-    LET n == T.nodes[i] IN
-    CASE n.k \in LeafKinds -> P[i].on
-      [] n.k = "Allocation" -> TRUE
-      [] n.k = "Max" -> \E c \in Kids(T, i) : Sat(T, P, c)
-      [] n.k = "Min" -> \A c \in Kids(T, i) : Sat(T, P, c)
-      [] n.k = "LessThan" ->
-            /\ Sat(T, P, n.ch[1]) /\ Sat(T, P, n.ch[2])
-            \* two running tasks in the wrong order: never satisfied, whatever is placed
-            /\ (~Cond(T, n.ch[1]) /\ ~Cond(T, n.ch[2])) => FixEnd(T, n.ch[1]) <= FixStart(T, n.ch[2])
-      [] n.k = "Scale" -> Sat(T, P, n.ch[1])
-      [] OTHER -> TRUE
-
 \* span of a satisfied node: earliest start / latest end of what it places
-RECURSIVE StartOf(_, _, _)
-StartOf(T, P, i) ==
+RECURSIVE StartOf(_, _, _, _)
+StartOf(T, X, P, i) ==
     LET n == T.nodes[i] IN
-    CASE n.k \in LeafKinds -> LeafStart(T, P, i)
+    CASE n.k \in LeafKinds -> LeafStart(T, X, P, i)
       [] n.k = "Allocation" -> n.start
-      [] OTHER -> MinOf({StartOf(T, P, c) : c \in {c \in Kids(T, i) : Sat(T, P, c)}})
-RECURSIVE EndOf(_, _, _)
-EndOf(T, P, i) ==
+      [] OTHER -> MinOf({StartOf(T, X, P, c) : c \in {c \in Kids(T, i) : Sat(T, X, P, c)}})
+RECURSIVE EndOf(_, _, _, _)
+EndOf(T, X, P, i) ==
     LET n == T.nodes[i] IN
-    CASE n.k \in LeafKinds -> LeafEnd(T, P, i)
+    CASE n.k \in LeafKinds -> LeafEnd(T, X, P, i)
       [] n.k = "Allocation" -> n.start + n.dur
-      [] OTHER -> MaxOf({EndOf(T, P, c) : c \in {c \in Kids(T, i) : Sat(T, P, c)}})
+      [] OTHER -> MaxOf({EndOf(T, X, P, c) : c \in {c \in Kids(T, i) : Sat(T, X, P, c)}})
 
-MaxOK(T, P, i) == Cardinality({c \in Kids(T, i) : Sat(T, P, c)}) <= 1
-MinOK(T, P, i) ==
-    LET cs == {c \in Kids(T, i) : Cond(T, c)} IN
-    (\E c \in cs : Sat(T, P, c)) => (\A c \in cs : Sat(T, P, c))
-LtOrderOK(T, P, i) ==
+MaxOK(T, X, P, i) == Cardinality({c \in Kids(T, i) : Sat(T, X, P, c)}) <= 1
+\* the children a Min ties together: placement-dependent and able to provide utility
+Tied(T, X, i) == {c \in Kids(T, i) : Cond(T, X, c) /\ ~NoU(T, X, c)}
+MinOK(T, X, P, i) ==
+    (\E c \in Tied(T, X, i) : Sat(T, X, P, c)) => (\A c \in Tied(T, X, i) : Sat(T, X, P, c))
+LtLive(T, X, i) == ~NoU(T, X, i) /\ ~Untied(T, X, i)
+LtOrderOK(T, X, P, i) ==
     LET a == T.nodes[i].ch[1]  b == T.nodes[i].ch[2] IN
-    (Sat(T, P, a) /\ Sat(T, P, b) /\ (Cond(T, a) \/ Cond(T, b)))
-        => EndOf(T, P, a) <= StartOf(T, P, b)
-LtBothOK(T, P, i) ==
+    (LtLive(T, X, i) /\ Sat(T, X, P, a) /\ Sat(T, X, P, b) /\ (Cond(T, X, a) \/ Cond(T, X, b)))
+        => EndOf(T, X, P, a) <= StartOf(T, X, P, b)
+LtBothOK(T, X, P, i) ==
     LET a == T.nodes[i].ch[1]  b == T.nodes[i].ch[2] IN
-    (Cond(T, a) /\ Cond(T, b)) => (Sat(T, P, a) <=> Sat(T, P, b))
+    (LtLive(T, X, i) /\ Cond(T, X, a) /\ Cond(T, X, b)) => (Sat(T, X, P, a) <=> Sat(T, X, P, b))
 
-OfKind(T, k) == {i \in NodeIdx(T) : T.nodes[i].k = k}
+\* pinned F3: the library's happens-before row  end(first) <= start(second)  is not
+\* conditioned on the LessThan being satisfied.  LoEnd / HiStart are the smallest end /
+\* largest start value the library's time variables of a node can take under P.
+RECURSIVE LoEnd(_, _, _, _)
+LoEnd(T, X, P, i) ==
+    LET n == T.nodes[i] IN
+    CASE n.k \in {"Choose", "Allocation"} -> n.start + n.dur
+      [] n.k = "WindowedChoose" -> IF P[i].on THEN P[i].start + n.dur ELSE 0
+      [] n.k = "MalleableChoose" -> IF P[i].on /\ P[i].alloc # {} THEN MaxOf({e[2] : e \in P[i].alloc}) ELSE 0
+      [] n.k = "Max" -> SumFun([c \in Kids(T, i) |->
+                            IF T.nodes[c].k = "Choose"
+                            THEN (IF P[c].on THEN T.nodes[c].start + T.nodes[c].dur ELSE 0)
+                            ELSE LoEnd(T, X, P, c)], Kids(T, i))
+      [] n.k = "LessThan" -> LoEnd(T, X, P, n.ch[2])
+      [] n.k = "Scale" -> LoEnd(T, X, P, n.ch[1])
+      [] OTHER -> MaxOf({LoEnd(T, X, P, c) : c \in Kids(T, i)} \cup {0})
+RECURSIVE HiStart(_, _, _, _)
+HiStart(T, X, P, i) ==
+    LET n == T.nodes[i] IN
+    CASE n.k \in {"Choose", "Allocation"} -> n.start
+      [] n.k = "WindowedChoose" -> IF P[i].on THEN P[i].start ELSE n.start
+      [] n.k = "MalleableChoose" -> IF P[i].on /\ P[i].alloc # {} THEN MinOf({e[2] : e \in P[i].alloc}) ELSE 0
+      [] n.k = "Max" ->
+            LET live == {c \in Kids(T, i) : ~NoU(T, X, c)}
+                first == MinOf({T.nodes[c].start : c \in live})
+            IN  SumFun([c \in live |->
+                            IF T.nodes[c].k = "Choose"
+                            THEN (IF P[c].on THEN T.nodes[c].start ELSE 0)
+                            ELSE HiStart(T, X, P, c)], live)
+                + (IF \E c \in live : P[c].on THEN 0 ELSE first)
+      [] n.k = "LessThan" -> HiStart(T, X, P, n.ch[1])
+      [] n.k = "Scale" -> HiStart(T, X, P, n.ch[1])
+      [] OTHER -> MinOf({HiStart(T, X, P, c) : c \in Kids(T, i)})
+RowsOK(T, X, P) ==
+    \A i \in OfKind(T, "LessThan") :
+        (~NoU(T, X, i) /\ ~ConstLt(T, i))
+            => LoEnd(T, X, P, T.nodes[i].ch[1]) <= HiStart(T, X, P, T.nodes[i].ch[2])
 
-StructOK(T, P) ==
-    /\ \A i \in OfKind(T, "Max") : MaxOK(T, P, i)
-    /\ \A i \in OfKind(T, "Min") : MinOK(T, P, i)
-    /\ \A i \in OfKind(T, "LessThan") : LtOrderOK(T, P, i) /\ LtBothOK(T, P, i)
+StructOK(T, X, P) ==
+    /\ \A i \in OfKind(T, "Max") : MaxOK(T, X, P, i)
+    /\ \A i \in OfKind(T, "Min") : MinOK(T, X, P, i)
+    /\ \A i \in OfKind(T, "LessThan") : LtOrderOK(T, X, P, i) /\ LtBothOK(T, X, P, i)
+    /\ (F3 \in X.v => RowsOK(T, X, P))
 
-Valid(T, P) ==
-    /\ \A i \in Leaves(T) : LeafOK(T, P, i)
-    /\ CapOK(T, P)
-    /\ StructOK(T, P)
+Valid(T, X, P) ==
+    /\ \A i \in Leaves(T) : LeafOK(T, X, P, i)
+    /\ CapOK(T, X, P)
+    /\ StructOK(T, X, P)
 
 \* --- utility ---
-RECURSIVE Utility(_, _, _)
-Utility(T, P, i) ==
+\* pinned F1: the library adds the children's utility terms without a guard (they vanish
+\* only through the indicator equalities), so an untied child's utility leaks through
+RECURSIVE Utility(_, _, _, _)
+Utility(T, X, P, i) ==
     LET n == T.nodes[i]
-        kids == [j \in 1..Len(n.ch) |-> Utility(T, P, n.ch[j])]   \* a shared child counts per parent
+        kids == [j \in 1..Len(n.ch) |-> Utility(T, X, P, n.ch[j])]   \* a shared child counts per parent
         sum == SumFun(kids, 1..Len(n.ch))
+        open == F1 \in X.v
     IN
-    CASE n.k \in LeafKinds -> IF P[i].on THEN n.util ELSE 0
-      [] n.k = "Allocation" -> 0
-      [] n.k = "Max" -> sum
-      [] n.k = "Min" -> IF Sat(T, P, i)
-                        THEN sum + (IF Cond(T, i) THEN 0 ELSE ConvTrivialMinBonus)
-                        ELSE 0
-      [] n.k = "LessThan" -> IF Sat(T, P, i) THEN sum ELSE 0
-      [] n.k = "Scale" -> IF n.disr = 1
-                          THEN (IF Sat(T, P, n.ch[1]) THEN n.factor ELSE 0)
-                          ELSE n.factor * sum
-      [] OTHER -> sum
+    IF NoU(T, X, i) THEN 0
+    ELSE CASE n.k \in LeafKinds -> IF P[i].on THEN n.util ELSE 0
+           [] n.k = "Allocation" -> 0
+           [] n.k = "Max" -> sum
+           [] n.k = "Min" -> IF open \/ Sat(T, X, P, i)
+                             THEN sum + (IF Cond(T, X, i) THEN 0 ELSE ConvTrivialMinBonus)
+                             ELSE 0
+           [] n.k = "LessThan" -> IF open \/ Sat(T, X, P, i) THEN sum ELSE 0
+           [] n.k = "Scale" -> IF n.disr = 1
+                               THEN (IF Sat(T, X, P, n.ch[1]) THEN n.factor ELSE 0)
+                               ELSE n.factor * sum
+           [] OTHER -> sum
 
-TreeUtility(T, P) == Utility(T, P, T.root)
+TreeUtility(T, X, P) == Utility(T, X, P, T.root)
 
 \* --- brute force optimum ---
 \* all ways to take `num` units from the partitions ps at one time t
@@ -265,18 +433,18 @@ Options(T, i) ==
                         f \in {f \in F : n.slots > 0}}
 
 \* depth first over the leaves with capacity pruning; -1 = no valid placement at all
-RECURSIVE BestRec(_, _, _, _)
-BestRec(T, ls, k, P) ==
+RECURSIVE BestRec(_, _, _, _, _)
+BestRec(T, X, ls, k, P) ==
     IF k > Len(ls)
-    THEN IF StructOK(T, P) THEN TreeUtility(T, P) ELSE -1
+    THEN IF StructOK(T, X, P) THEN TreeUtility(T, X, P) ELSE -1
     ELSE LET i == ls[k]
-             ext == {o \in Options(T, i) : CapOK(T, [P EXCEPT ![i] = o])}
-         IN  MaxOf({BestRec(T, ls, k + 1, P)} \cup
-                   {BestRec(T, ls, k + 1, [P EXCEPT ![i] = o]) : o \in ext})
+             ext == {o \in Options(T, i) : CapOK(T, X, [P EXCEPT ![i] = o])}
+         IN  MaxOf({BestRec(T, X, ls, k + 1, P)} \cup
+                   {BestRec(T, X, ls, k + 1, [P EXCEPT ![i] = o]) : o \in ext})
 
-Best(T) ==
+Best(T, X) ==
     LET P0 == [i \in Leaves(T) |-> Unplaced] IN
-    IF ~CapOK(T, P0) THEN -1 ELSE BestRec(T, SetToSeq(Leaves(T)), 1, P0)
+    IF ~CapOK(T, X, P0) THEN -1 ELSE BestRec(T, X, SetToSeq(Leaves(T)), 1, P0)
 
 -----------------------------------------------------------------------------
 (* Part 2: the dumped linear model.  M = [lb, ub, hub, cons, obj]; variable    *)
@@ -297,39 +465,55 @@ ObjVal(M, x) == LinVal(x, M.obj)
 
 -----------------------------------------------------------------------------
 (* Part 3: batch checking.  Batch = [trees, models, recs, sums].               *)
-(*  rec = [id, tree, model, x, robj, rutil, pl, nclaim, nutil, nown]           *)
+(*  rec = [id, tree, model, x, cp, purge, robj, rutil, pl, nclaim, nutil, nown]*)
+(*    cp / purge  1 = the pass ran for the instance the record comes from      *)
 (*    pl      root placements as read back: [leaf, start, end, alloc]          *)
 (*    nclaim  per node: 1 = the library reports the node satisfied (utility    *)
 (*            # 0), 0 = not; nutil: the node's reported utility; nown: 1 = the *)
 (*            node's own solution carries a placement                          *)
-(*  sum = [tree, runs]  run = [id, g, passes, feasible, max, fine]             *)
-(* Failing clauses are printed as  @@ <id> <clause> <detail>  lines; the       *)
+(*  sum = [id, tree, runs]                                                     *)
+(*    run = [id, g, passes, status, err, feasible, max, fine, fineix]          *)
+(*    status "ok" | "timeout" | "exception" (the compilation itself failed     *)
+(*    although the tree compiles without passes at discretisation 1)           *)
+(* Every clause that fails under the specification (X.v = {}) is printed as    *)
+(*   @@ <id> <clause> <causes> <detail>                                        *)
+(* <causes> = the smallest set of pinned variants under which the record /     *)
+(* run has no failing clause at all, '+'-joined, or `unexplained`.  The        *)
 (* checker itself never fails, so one run reports every failing record.        *)
 
 Batch == JsonDeserialize(BatchFile)
 NRecs == Len(Batch.recs)
 NSums == Len(Batch.sums)
 
-Report(id, clause, detail) ==
-    PrintT("@@ " \o id \o " " \o clause \o " " \o ToString(detail))
+CauseOrder == <<F1, F2, F3, F4, F6, F7, F8>>
+RECURSIVE JoinFrom(_, _)
+JoinFrom(V, k) ==
+    IF k > Len(CauseOrder) THEN ""
+    ELSE LET rest == JoinFrom(V, k + 1) IN
+         IF CauseOrder[k] \in V
+         THEN CauseOrder[k] \o (IF rest = "" THEN "" ELSE "+" \o rest)
+         ELSE rest
+CauseStr(V) == IF V = {} THEN "unexplained" ELSE JoinFrom(V, 1)
 
-\* bad => report, always TRUE
-Flag(bad, id, clause, detail) == IF bad THEN Report(id, clause, detail) ELSE TRUE
+Report(id, clause, causes, detail) ==
+    PrintT("@@ " \o id \o " " \o clause \o " " \o causes \o " " \o detail)
+
+Item(c, d) == [c |-> c, d |-> ToString(d)]
+When(b, item) == IF b THEN {item} ELSE {}
 
 \* vacuity counters: how often each structural situation was exercised
 Tally(T, P, ut) ==
     <<Cardinality({i \in Leaves(T) : P[i].on}),
       Cardinality({c \in DOMAIN ut : ut[c] > 0}),
-      Cardinality({i \in OfKind(T, "Max") : Sat(T, P, i)}),
-      Cardinality({i \in OfKind(T, "Min") : Sat(T, P, i) /\ Cond(T, i)}),
-      Cardinality({i \in OfKind(T, "LessThan") : Sat(T, P, i) /\ Cond(T, i)}),
-      Cardinality({i \in OfKind(T, "Scale") : Sat(T, P, i)}),
+      Cardinality({i \in OfKind(T, "Max") : Sat(T, Spec0, P, i)}),
+      Cardinality({i \in OfKind(T, "Min") : Sat(T, Spec0, P, i) /\ Cond(T, Spec0, i)}),
+      Cardinality({i \in OfKind(T, "LessThan") : Sat(T, Spec0, P, i) /\ Cond(T, Spec0, i)}),
+      Cardinality({i \in OfKind(T, "Scale") : Sat(T, Spec0, P, i)}),
       Cardinality({c \in DOMAIN ut : ut[c] = T.q[c[1]]})>>
 NTally == 7
 AddTally(t) == \A k \in 1..NTally : TLCSet(k, TLCGet(k) + t[k])
 
 ASSUME \A k \in 1..NTally : TLCSet(k, 0)
-
 
 PlacementOf(T, r) ==
     [i \in Leaves(T) |->
@@ -340,67 +524,123 @@ PlacementOf(T, r) ==
 
 \* deepest node on a path from the root whose reported utility differs from the
 \* specified one while all of its children agree: names the culprit of a mismatch
-RECURSIVE Culprit(_, _, _, _)
-Culprit(T, P, r, i) ==
-    LET bad == {c \in Kids(T, i) : r.nutil[c] # Utility(T, P, c)} IN
-    IF bad = {} THEN i ELSE Culprit(T, P, r, MinOf(bad))
+RECURSIVE Culprit(_, _, _, _, _)
+Culprit(T, X, P, r, i) ==
+    LET bad == {c \in Kids(T, i) : r.nutil[c] # Utility(T, X, P, c)} IN
+    IF bad = {} THEN i ELSE Culprit(T, X, P, r, MinOf(bad))
+
+\* the clauses a read-back fails under the semantics X (placement-level clauses only)
+RecFails(T, X, r, P, ut) ==
+    LET strays == {j \in 1..Len(r.pl) : \/ r.pl[j].leaf \notin Leaves(T)
+                                         \/ \E k \in 1..Len(r.pl) : k # j /\ r.pl[k].leaf = r.pl[j].leaf}
+        U == TreeUtility(T, X, P)
+        over == CapViolIn(T, X, P, ut)
+    IN
+    When(strays # {}, Item("C20.choose_exact", [kind |-> "placement that belongs to no leaf (or two to one)", n |-> strays]))
+    \cup UNION {
+           When(P[i].on /\ ~LeafOK(T, X, P, i),
+                Item("C20.choose_exact", [node |-> i, bad |-> LeafBad(T, X, P, i), got |-> P[i]]))
+           \cup When(~P[i].on /\ ~LeafOK(T, X, P, i),
+                Item("C20.unsat_nothing", [node |-> i, bad |-> LeafBad(T, X, P, i), got |-> P[i]]))
+           \cup When(r.nclaim[i] = 0 /\ (r.nown[i] = 1 \/ P[i].on),
+                Item("C20.unsat_nothing", [node |-> i, kind |-> "unsatisfied leaf carries a placement"]))
+           : i \in Leaves(T)}
+    \cup When(over # {},
+              Item("C20.capacity",
+                   [over |-> {<<c[1], c[2], ut[c]>> : c \in over},
+                    users |-> {i \in Leaves(T) \cup AllocNodes(T) : \E c \in over :
+                                  IF i \in Leaves(T) THEN LeafUse(T, P, i, c[1], c[2]) > 0
+                                  ELSE AllocUse(T, i, c[1], c[2]) > 0}]))
+    \cup UNION {
+           When(~MaxOK(T, X, P, i), Item("C20.max_one", [node |-> i, kind |-> "placed"]))
+           \cup When(Cardinality({c \in Kids(T, i) : r.nclaim[c] = 1}) > 1,
+                     Item("C20.max_one", [node |-> i, kind |-> "reported"]))
+           : i \in OfKind(T, "Max")}
+    \cup UNION {
+           When(~MinOK(T, X, P, i), Item("C20.min_all", [node |-> i, kind |-> "partial"]))
+           \cup When(/\ r.nclaim[i] = 1
+                     /\ \E c \in Tied(T, X, i) : r.nclaim[c] = 0
+                     \* pinned F1: an untied child's utility leaks into the Min's reported utility
+                     /\ ~(F1 \in X.v /\ \E j \in Desc(T, i) : F1Node(T, j)),
+                     Item("C20.min_all", [node |-> i, kind |-> "reported satisfied with an unsatisfied child"]))
+           : i \in OfKind(T, "Min")}
+    \cup UNION {
+           When(~LtOrderOK(T, X, P, i), Item("C20.lessthan", [node |-> i, kind |-> "order"]))
+           \cup When(~LtBothOK(T, X, P, i), Item("C20.lessthan", [node |-> i, kind |-> "one side only"]))
+           : i \in OfKind(T, "LessThan")}
+    \cup When(U # r.robj,
+              Item("C20.utility_eq", [kind |-> "semantic", spec |-> U, reported |-> r.robj,
+                                      node |-> Culprit(T, X, P, r, T.root)]))
+
+\* smallest set of applicable pinned variants under which `ok(V)` holds; {} = none does
+SmallestCause(app, ok(_)) ==
+    LET good == {V \in SUBSET app : V # {} /\ ok(V)} IN
+    IF good = {} THEN {}
+    ELSE LET k == MinOf({Cardinality(V) : V \in good}) IN
+         CHOOSE V \in good : Cardinality(V) = k
 
 CheckRec(r) ==
     LET T == Batch.trees[r.tree]
         M == Batch.models[r.model]
+        X0 == [v |-> {}, cp |-> r.cp = 1, purge |-> r.purge = 1]
         P == PlacementOf(T, r)
-        strays == {j \in 1..Len(r.pl) : \/ r.pl[j].leaf \notin Leaves(T)
-                                         \/ \E k \in 1..Len(r.pl) : k # j /\ r.pl[k].leaf = r.pl[j].leaf}
-        U == TreeUtility(T, P)
         ut == UseTable(T, P)
+        fails == RecFails(T, X0, r, P, ut)
+        Ok(V) == RecFails(T, [X0 EXCEPT !.v = V], r, P, ut) = {}
+        causes == IF fails = {} THEN "" ELSE CauseStr(SmallestCause(Applicable(T, X0), Ok))
     IN
-    /\ Flag(~ModelSat(M, r.x), r.id, "C20.model_sat",
-            [bounds |-> BoundViol(M, r.x),
-             cons |-> {M.cons[j].name : j \in IF Len(r.x) = Len(M.lb) THEN ConViol(M, r.x) ELSE {}}])
-    /\ \/ Len(r.x) # Len(M.lb)
-       \/ Flag(ObjVal(M, r.x) # r.robj \/ r.robj # r.rutil, r.id, "C20.utility_eq",
-               [kind |-> "objective", model |-> ObjVal(M, r.x), reported |-> r.robj, root |-> r.rutil])
-    /\ Flag(strays # {}, r.id, "C20.choose_exact", [kind |-> "placement that belongs to no leaf (or two to one)", n |-> strays])
-    /\ \A i \in Leaves(T) :
-          /\ Flag(P[i].on /\ ~LeafOK(T, P, i), r.id, "C20.choose_exact",
-                  [node |-> i, bad |-> LeafBad(T, P, i), got |-> P[i]])
-          /\ Flag(~P[i].on /\ ~LeafOK(T, P, i), r.id, "C20.unsat_nothing",
-                  [node |-> i, bad |-> LeafBad(T, P, i), got |-> P[i]])
-          /\ Flag(r.nclaim[i] = 0 /\ (r.nown[i] = 1 \/ P[i].on), r.id, "C20.unsat_nothing",
-                  [node |-> i, kind |-> "unsatisfied leaf carries a placement"])
-    /\ Flag(CapViolIn(T, ut) # {}, r.id, "C20.capacity",
-            [over |-> {<<c[1], c[2], ut[c]>> : c \in CapViolIn(T, ut)},
-             users |-> {i \in Leaves(T) \cup AllocNodes(T) : \E c \in CapViolIn(T, ut) :
-                           IF i \in Leaves(T) THEN LeafUse(T, P, i, c[1], c[2]) > 0
-                           ELSE AllocUse(T, i, c[1], c[2]) > 0}])
+    \* the model part does not depend on any reading of the tree: never attributed
+    /\ IF ModelSat(M, r.x) THEN TRUE
+       ELSE Report(r.id, "C20.model_sat", "unexplained",
+                   ToString([bounds |-> BoundViol(M, r.x),
+                             cons |-> {M.cons[j].name : j \in IF Len(r.x) = Len(M.lb) THEN ConViol(M, r.x) ELSE {}}]))
+    /\ IF Len(r.x) # Len(M.lb) \/ (ObjVal(M, r.x) = r.robj /\ r.robj = r.rutil) THEN TRUE
+       ELSE Report(r.id, "C20.utility_eq", "unexplained",
+                   ToString([kind |-> "objective", model |-> ObjVal(M, r.x), reported |-> r.robj, root |-> r.rutil]))
+    /\ \A f \in fails : Report(r.id, f.c, causes, f.d)
     /\ AddTally(Tally(T, P, ut))
-    /\ \A i \in OfKind(T, "Max") :
-          /\ Flag(~MaxOK(T, P, i), r.id, "C20.max_one", [node |-> i, kind |-> "placed"])
-          /\ Flag(Cardinality({c \in Kids(T, i) : r.nclaim[c] = 1}) > 1, r.id, "C20.max_one",
-                  [node |-> i, kind |-> "reported"])
-    /\ \A i \in OfKind(T, "Min") :
-          /\ Flag(~MinOK(T, P, i), r.id, "C20.min_all", [node |-> i, kind |-> "partial"])
-          /\ Flag(r.nclaim[i] = 1 /\ \E c \in Kids(T, i) : Cond(T, c) /\ r.nclaim[c] = 0,
-                  r.id, "C20.min_all", [node |-> i, kind |-> "reported satisfied with an unsatisfied child"])
-    /\ \A i \in OfKind(T, "LessThan") :
-          /\ Flag(~LtOrderOK(T, P, i), r.id, "C20.lessthan", [node |-> i, kind |-> "order"])
-          /\ Flag(~LtBothOK(T, P, i), r.id, "C20.lessthan", [node |-> i, kind |-> "one side only"])
-    /\ Flag(U # r.robj, r.id, "C20.utility_eq",
-            [kind |-> "semantic", spec |-> U, reported |-> r.robj, node |-> Culprit(T, P, r, T.root)])
 
-CheckRun(T, best, s, run) ==
-    IF run.g = 1
-    THEN LET clause == IF run.passes = 0 THEN "C20.best_eq" ELSE "C20.pass_invariant" IN
-         Flag((run.feasible = 0 /\ best # -1) \/ (run.feasible = 1 /\ run.max # best),
-              run.id, clause, [best |-> best, max |-> run.max, feasible |-> run.feasible, passes |-> run.passes])
-    ELSE Flag(run.feasible = 1 /\ run.fine >= -1 /\ run.max > run.fine, run.id, "C20.coarse_le",
-              [best |-> run.fine, max |-> run.max, feasible |-> run.feasible, g |-> run.g, passes |-> run.passes])
+\* --- per tree: the optimum with / without passes, coarse discretisation ---
+XOfRun(run, V) == [v |-> V, cp |-> run.passes % 2 = 1, purge |-> (run.passes \div 2) % 2 = 1]
+FineOK(run, b) == (run.feasible = 0 /\ b = -1) \/ (run.feasible = 1 /\ run.max = b)
+
+\* verdict of one run: [ok, v]; ok = FALSE and v = {} means unexplained
+RECURSIVE Judge(_, _, _, _)
+Judge(T, best, runs, j) ==
+    LET run == runs[j]
+        X0 == XOfRun(run, {})
+        app == Applicable(T, X0)
+    IN
+    IF run.status = "timeout"
+    THEN [ok |-> FALSE, v |-> IF X0.cp /\ F4Tree(T) THEN {F4} ELSE {}]
+    ELSE IF run.status = "exception"
+    THEN [ok |-> FALSE, v |-> IF X0.cp /\ run.err = "max_no_child" /\ F6Tree(T) THEN {F6} ELSE {}]
+    ELSE IF run.g = 1
+    THEN IF FineOK(run, best) THEN [ok |-> TRUE, v |-> {}]
+         ELSE LET Ok(V) == FineOK(run, Best(T, XOfRun(run, V))) IN
+              [ok |-> FALSE, v |-> SmallestCause(app, Ok)]
+    ELSE \* coarse discretisation may only lose utility with respect to the fine run
+         IF run.feasible = 0 \/ run.fineix = 0 \/ run.max <= run.fine THEN [ok |-> TRUE, v |-> {}]
+         ELSE LET fine == Judge(T, best, runs, run.fineix) IN
+              IF run.max <= best /\ ~fine.ok /\ fine.v # {}
+              THEN [ok |-> FALSE, v |-> fine.v]     \* the coarse run is fine, the fine run is the defective one
+              ELSE LET Ok(V) == run.max <= Best(T, XOfRun(run, V)) IN
+                   [ok |-> FALSE, v |-> SmallestCause(app, Ok)]
 
 CheckSum(s) ==
     LET T == Batch.trees[s.tree]
-        best == Best(T)
+        best == Best(T, Spec0)
     IN  /\ PrintT("@@BEST " \o s.id \o " " \o ToString(best))
-        /\ \A j \in 1..Len(s.runs) : CheckRun(T, best, s, s.runs[j])
+        /\ \A j \in 1..Len(s.runs) :
+              LET run == s.runs[j]
+                  verdict == Judge(T, best, s.runs, j)
+                  clause == IF run.g > 1 THEN "C20.coarse_le"
+                            ELSE IF run.passes = 0 THEN "C20.best_eq" ELSE "C20.pass_invariant"
+              IN  IF verdict.ok THEN TRUE
+                  ELSE Report(run.id, clause, CauseStr(verdict.v),
+                              ToString([best |-> best, max |-> run.max, feasible |-> run.feasible,
+                                        fine |-> run.fine, g |-> run.g, passes |-> run.passes,
+                                        status |-> run.status]))
 
 VARIABLE idx
 Init == idx = 0
